@@ -521,6 +521,8 @@ theorem validateDef_some (O : Oracle) (lines : List (Line × List Param)) (e : E
             obtain ⟨l', hl', r⟩ := hw
             exact ⟨l', by simp only [List.map_cons]; exact List.mem_cons_of_mem _ hl', r⟩
 
+deriving instance DecidableEq for Except
+
 /-! ### a concrete world for the non-vacuity examples -/
 namespace Demo
 def hk1 : Str := [104, 107, 45, 49]   -- "hk-1"
